@@ -22,6 +22,19 @@ theorem nodup_foldl_setValue (l : List (K × Entry V)) (bc : BC K B V) (h : (bc.
   | nil => exact h
   | cons p r ih => exact ih _ (nodup_keys_aset _ _ _ h)
 
+theorem SC.remove_ev_le (sc : SC K B V) (k : K) : sc.evictions ≤ (sc.remove k).evictions := by
+  unfold SC.remove
+  cases alookup sc.cache k with
+  | none => exact Nat.le_refl _
+  | some _ => exact Nat.le_add_right _ _
+
+/-- a `Remove` that does not count as an eviction removed nothing -/
+theorem SC.remove_noev (sc : SC K B V) (k : K) (h : (sc.remove k).evictions = sc.evictions) : sc.remove k = sc := by
+  unfold SC.remove at *
+  cases hk : alookup sc.cache k with
+  | none => rfl
+  | some _ => rw [hk] at h; simp at h
+
 theorem BC.get_ev_le (sc : SC K B V) (bc : BC K B V) (k : K) : sc.evictions ≤ (bc.get sc k).1.evictions := by
   unfold BC.get
   cases alookup bc.cache k with
@@ -78,6 +91,7 @@ theorem Sys.step_ev_le (s : Sys H K B V) (op : Op H K B V) : s.sc.evictions ≤ 
     | some bc => exact BC.commit_ev_le _ _
   | qget b k => exact SC.get_ev_le _ _ _
   | sget k b => exact SC.get_ev_le _ _ _
+  | srem k => exact SC.remove_ev_le _ _
 
 theorem Sys.run_ev_le (s : Sys H K B V) (ops : List (Op H K B V)) : s.sc.evictions ≤ (s.run ops).1.sc.evictions := by
   induction ops generalizing s with
@@ -207,6 +221,9 @@ theorem Sys.step_inv {T : Tree K B V} (s : Sys H K B V) (op : Op H K B V) (hS : 
       · exact hS.nodup h' bc' hb'
   | qget b k => exact hS.set_sc _ (SC.get_correct s.sc k b hS.inv hev).1
   | sget k b => exact hS.set_sc _ (SC.get_correct s.sc k b hS.inv hev).1
+  | srem k =>
+    simp only [Sys.step, Sys.treeStep] at hev ⊢
+    rw [SC.remove_noev s.sc k hev]; exact hS
 
 /-- a hit/miss output is correct for the demanded answer when every hit value is the demanded one -/
 theorem okOfHits {T : Tree K B V} {pend : List (List (K × Entry V))} {b : B} {k : K} {r : Option V}
@@ -306,6 +323,7 @@ theorem Sys.step_ok {T : Tree K B V} (s : Sys H K B V) (op : Op H K B V) (hS : S
   | tcommit _ => simp [Sys.ctx] at hctx
   | bset _ _ _ => simp [Sys.ctx] at hctx
   | bcommit _ => simp [Sys.ctx] at hctx
+  | srem _ => simp [Sys.ctx] at hctx
 
 theorem Sys.run_ok {T : Tree K B V} (s : Sys H K B V) (ops : List (Op H K B V)) (hS : SysInv s T)
     (hne : NoEviction s ops) : AllOK s T ops := by
